@@ -663,7 +663,8 @@ def rule_index(ctx):
             idx, ent = l.target.elts[0].id, l.target.elts[1].id
             coll = src(l.iter.args[0]) if l.iter.args else ""
 
-            def is_match(t, pol):
+            def is_match(t, pol, fn=fn, ent=ent, idx=idx):
+                t = deep_expand(p, t, fn, stop={ent, idx})
                 return pol and isinstance(t, ast.Compare) and len(t.ops) == 1 and isinstance(t.ops[0], ast.Eq) and {src(t.left).split(".")[0], src(t.comparators[0]).split(".")[0]} >= {ent} \
                     and src(t.left).endswith(".name") and src(t.comparators[0]).endswith(".name")
             # uses of the index on the same collection: inside the loop they need the match as a guard; after the loop the loop must leave only by `break` under the match
